@@ -194,6 +194,7 @@ struct XReq {
     SrcFault docFault, xslFault; SinkFault sinkFault;
     unsigned bufSize = 512, tblock = 1024;         // writer form
     bool wantCanon = false;
+    std::string ssSysId;                           // system id of the stylesheet for the stream / InputSource forms (default SIM_BASE + "ss.xsl")
 };
 
 // exceptions the driver may see escaping a call
@@ -323,7 +324,7 @@ inline XformOut runTransform(XEnv& env, const XReq& rq, SimSink& sink, const Xal
     XformOut out; xercesc::MemoryManager& mm = env.manager(); XalanTransformer& T = *env.T;
     sink.reset(rq.sinkFault);
     const std::string docSeen = applySrcFault(rq.doc, rq.docFault), xslSeen = applySrcFault(rq.xsl, rq.xslFault);
-    const std::string docId = std::string(SIM_BASE) + "doc.xml", ssId = std::string(SIM_BASE) + "ss.xsl";
+    const std::string docId = std::string(SIM_BASE) + "doc.xml", ssId = rq.ssSysId.empty() ? std::string(SIM_BASE) + "ss.xsl" : rq.ssSysId;
     env.fs.put("ss.xsl", rq.xsl); env.fs.put("doc.xml", rq.doc);
     if (rq.xslFault.destructive() || rq.xslFault.maxChunk) env.fs.faults["ss.xsl"] = rq.xslFault; else env.fs.faults.erase("ss.xsl");
     // --- inputs
